@@ -67,8 +67,9 @@ fn lead(b: u8) -> usize { b.leading_zeros() as usize + 1 }
 pub fn hdr_at(s: &[u8], off: usize) -> Hdr {
     if off >= s.len() { return Hdr::Incomplete { id: None }; }
     let b0 = s[off];
-    if b0 == 0 { return Hdr::BadId; }
-    let il = lead(b0);
+    // a first byte 0x00 carries no length marker; the iterator's convention is to treat it as the one-byte id 0
+    // (never part of a specification: an invalid id in strict mode, a raw tag with id 0 when unknown ids are tolerated)
+    let il = if b0 == 0 { 1 } else { lead(b0) };
     if off + il > s.len() { return Hdr::Incomplete { id: None }; }
     let mut id = 0u64;
     for k in 0..il { id = (id << 8) | s[off + k] as u64; }
